@@ -178,8 +178,8 @@ class IORecord:
 
     def rwBool(self, val):
         """Read or write a boolean value from an integer."""
-        val = False if not isinstance(val, bool) else val
-        return bool(self.rwInt(int(val)))
+        # val is None when reading; numpy booleans are true or false without being bool instances
+        return bool(self.rwInt(int(bool(val))))
 
     def rwFloat(self, val):
         """Abstract method for reading or writing a floating point (single precision) value.
